@@ -94,7 +94,12 @@ class Env:
         P.config.COMMTIMEOUT = 0.0
         self.nsd = N.NameServerDaemon(host="127.0.0.1", port=0, storage=storage)      # (memory, or "sql:<file>": the gateway does not know)
         self.tlog = TargetLog()
-        self.daemon = P.server.Daemon(host="127.0.0.1", port=0)
+        # (in the sql-backed shards the target daemon is an application subclass that sends an annotation of its own with every reply: the
+        # gateway's answers do not depend on what else travels in the Pyro message)
+        class AnnotatingDaemon(P.server.Daemon):
+            def annotations(self):
+                return {"XTRA": b"application data"}
+        self.daemon = (AnnotatingDaemon if storage else P.server.Daemon)(host="127.0.0.1", port=0)
         for n in OBJ_NAMES:
             uri = self.daemon.register(make_target(P, self.tlog, n))
             self.nsd.nameserver.register(n, uri)
